@@ -372,6 +372,9 @@ def run_case(scn, drv):
             r['violations'].append({'oracle': 'nodal_price_table', 'detail': 'no price column for node %s' % n, 'facts': {'what': 'missing_column'}})
             return r
         prices_by_pair[(int(t), str(n))] = float(pr[col].values[int(t)])
+        if prices_by_pair[(int(t), str(n))] != prices_by_pair[(int(t), str(n))]:
+            r['violations'].append({'oracle': 'nodal_price_table', 'detail': 'no price (NaN) reported for node %s in step %d although the nodal restriction of that node and step exists' % (n, int(t)), 'facts': {'what': 'missing_cell'}})
+            return r
     # reading the output a second time from the same result object gives the same table
     try:
         import eaopack as eao
